@@ -110,6 +110,23 @@ CLAIMED["C08"] = dict(
     note="the SciPy-based implementation and the derivative routine (compiled Y_l^m, complex exponentials) are outside; trigonometric identities are decided by normalisation modulo c^2+s^2=1, inequalities by z3",
     ref="DESIGN.md#c08")
 
+CLAIMED.update({
+    "C05": dict(
+        text="The real AtomGrid constructor (_generate_atomic_grid, points, get_shell_grid with and without r^2) runs on radial grids with symbolic radii, weights and centre for the smallest shipped degrees of all "
+             "four methods, by degrees / single degree / sizes, rotation seeds 0/1/5/9/37: every point equals centre + r_i (Q_i u_k), every weight w_i r_i^2 omega_k with u, omega the shipped constants and Q_i the "
+             "matrix of seed+i computed independently per shell; index table, degrees, translation by the centre, shell extraction; sector -> degree rule for symbolic radial points and sector radii on every path; "
+             "from_preset argument fan-out for 17 presets x 7/86 elements x 3 methods with a symbolic centre (degrees never coarser than tabulated); cross-method size histories.",
+        note="shipped data lifted to exact constants; Rotation.random run natively (orthogonality as ground fact); presets are checked at the level of constructor arguments, not by building each grid",
+        ref="DESIGN.md#c05"),
+    "C07": dict(
+        text="MolGrid.__init__ / get_atomic_grid / __getitem__ / integrate run on 1-3 real AtomGrids with symbolic radial grids and centres, aim weights as a symbolic array and as a callable returning "
+             "uninterpreted values, store on and off: concatenation order, index table, weights = atomic * aim, integral = sum of atomic integrals of w_A f, independence of `store`, per-atom views; "
+             "from_size / from_preset / from_pruned hand every atom its own radial grid (OneDGrid / list / dict / default by element), preset or sectors, symbolic centre and seed (recording stubs); "
+             ">= 4 atoms with the real chunked BeckeWeights keep the index table intact.",
+        note="known finding: mol[i] weights depend on `store`; the 1 % end-to-end charge clause is outside; the 4-5 atom Becke case is a concrete run",
+        ref="DESIGN.md#c07"),
+})
+
 NOT_APPLICABLE = {
     "C02": "no symbolic input: validating 450 shipped data files against harmonics up to degree 325 is floating-point enumeration of concrete runs, outside solver-based checking and outside solver reach (the table/lookup half is decided in C12)",
 }
